@@ -10,6 +10,16 @@ import (
 	"github.com/libp2p/go-libp2p/core/peer"
 )
 
+// merkleLeaves returns the Merkle leaf of every shard: the protobuf encoding of the ShardsOfPeer
+// carried by the unit of that index (see propeller.proto), which is what UnitValidator verifies.
+func merkleLeaves(shards [][]byte) [][]byte {
+	leaves := make([][]byte, len(shards))
+	for i, shard := range shards {
+		leaves[i] = ShardData{shard}.MarshalProto()
+	}
+	return leaves
+}
+
 // CreatePropellerUnits creates the PropellerUnits for publishing
 // todo(rdr): maybe call it create message for sharing or somth like that
 func CreatePropellerUnits(
@@ -31,7 +41,7 @@ func CreatePropellerUnits(
 		return nil, fmt.Errorf("encoding the message: %w", err)
 	}
 
-	merkleRoot, merkleTree := merkle.New(encodedMessage)
+	merkleRoot, merkleTree := merkle.New(merkleLeaves(encodedMessage))
 	messageRoot := MessageRoot(merkleRoot)
 
 	signature, err := SignMessage(privKey, &messageRoot, committeeID, nonce)
@@ -111,7 +121,7 @@ func ConstructMessageFromUnits(
 		}
 	}
 
-	merkleRoot, merkleTree := merkle.New(shards)
+	merkleRoot, merkleTree := merkle.New(merkleLeaves(shards))
 
 	messageRoot := firstUnit.MessageRoot
 	expectedRoot := MessageRoot(merkleRoot)
